@@ -46,3 +46,25 @@ PROPS["C27"] = dict(
         Stage("c27_exh", kind="miri", args=["--n", "4"], miri_flags=MIRI_SERIAL, timeout=(900, 1800)),
     ],
 )
+
+PROPS["C10"] = dict(
+    level="exploration",
+    rule="(1) lattice: every pair of internal representations within +-6 (thorough +-40) of each representation boundary "
+         "(0, 2^32, 2^63, M/2, M-1, M, 2M-1 ...) of f62/f64/f128 for add/sub/mul/==, every point for neg/double/square/inv; "
+         "(2) chains of 4..16 operations (19 kinds + mul_small/exp7) over 8 element types starting from "
+         "representation-biased operands, every intermediate compared with reference modular arithmetic, `==` compared "
+         "with canonical equality, inv/div under a 3 s termination watchdog. evaluation = one operation; distinct = "
+         "distinct starting operand triples",
+    assumptions=["reference arithmetic (vcommon/refarith.rs, self-tested) is correct",
+                 "f62 non-canonical representations are injected through bytes_as_elements within the documented [0,2M) range; "
+                 "f64 through from_mont within its documented precondition (< M)",
+                 "division by zero is not judged; representation-range excursions are reported as diagnostics only"],
+    floor=1000,
+    stages=[
+        Stage("c10_lattice", variant="rel"),
+        Stage("c10_lattice", variant="chk", args=["--n", "3"]),
+        Stage("c10_chains", variant="rel", kind="sharded", n=(60000, 1500000), timeout=(300, 1800)),
+        Stage("c10_chains", variant="chk", kind="sharded", n=(16000, 200000), timeout=(300, 1800)),
+        Stage("c10_chains", kind="miri", args=["--n", "54"], miri_flags=MIRI_SERIAL, timeout=(900, 1800)),
+    ],
+)
